@@ -22,6 +22,16 @@ TRIGGERS = {
  "S-C17": ("C17", "WasmMsg sub-messages are executed by the running keeper directly instead of through the router: needs a user Wasm implementation (wrapping the keeper) configured with with_wasm; it never sees nested wasm messages"),
  "S-C18": ("C18", "addr_canonicalize compares the prefix with input.starts_with(prefix): a well-formed address whose prefix EXTENDS the configured one (cosmos vs cosmosvaloper) is accepted by canonicalize (validate still rejects)"),
  "S-C19": ("C19", "thread-local cache of (last registered address, instance count) in the wasm keeper: needs two Apps interleaved on one thread (A.inst, A.inst, B.inst, A.inst)"),
+ "T-C01": ("C01", "execute_submsg runs only Wasm sub-messages in a nested cache; a bank/staking/custom-module sub-message that fails AFTER a partial write (e.g. Delegate above the balance) and is caught by reply_on Error/Always leaves the partial write, and the top-level Ok commits it"),
+ "T-C02": ("C02", "the per-sub-message cache is created only for reply_on Always|Success: a sub-message sent with reply_on Error that fails after a partial effect (attached funds, a failed instantiate's registration, a depth-2 subtree) and is absorbed by the reply leaves that effect"),
+ "T-C03": ("C03", "ContractWrapper::with_sudo_empty rebuilds the wrapper with reply_fn: None: a wrapper built with with_reply(..) BEFORE with_sudo_empty(..) never gets its reply invoked"),
+ "T-C04": ("C04", "execute_submsg clears a non-replied sub-message's data only for reply_on Never: with reply_on Error and a SUCCESSFUL sub-message carrying data, that data leaks up and replaces the caller's"),
+ "T-C05": ("C05", "WasmKeeper::send skips the bank transfer when sender == recipient: a contract calling ITSELF with funds it does not own runs instead of failing"),
+ "T-C06": ("C06", "StorageTransaction::set drops a write whose value equals the BASE value (compared with the backing store instead of the cache view): base k=v, change k in the cache, write v back -> lost"),
+ "T-C07": ("C07", "range_with_prefix treats an explicit EMPTY end bound Some(b\"\") like None: the range returns the rest of the view instead of nothing"),
+ "T-C08": ("C08", "(round 2)"),
+ "T-C09": ("C09", "BankKeeper::burn checks each coin against the balance as loaded and then subtracts saturating: a list naming one denomination twice, each coin affordable alone but not together, succeeds (balance 7, send [5,5])"),
+ "T-C10": ("C10", "instantiate: the attached funds are transferred AFTER the instantiate entry point ran: queries issued inside instantiate do not see the funds just sent"),
  "S-C20": ("C20", "AppBuilder::with_ibc rebuilds the builder with the default block: needs with_block(..) followed later by with_ibc(..)"),
 }
 
@@ -29,10 +39,12 @@ def main(logs):
     res = {}
     for lg in logs:
         for line in open(lg):
-            m = re.match(r"^(S-C\d+) (\S+)(?: (.*))?$", line.strip())
+            m = re.match(r"^([ST]-C\d+) (\S+)(?: (.*))?$", line.strip())
             if not m: continue
             sid, key, rest = m.group(1), m.group(2), m.group(3) or ""
             r = res.setdefault(sid, {"checks": {}, "verified": {}})
+            if key == "demo" and rest.startswith("without change:"):
+                pass
             if key == "baseline:": r["verified"]["baseline_suite_with_change"] = rest
             elif key == "demo":
                 if rest.startswith("without change:"): r["verified"]["demo_without_change"] = rest.split(":",1)[1].strip()
